@@ -7,6 +7,11 @@ from mc.runner import Stats
 
 ID = "C11"
 LEVEL = "model_checking"
+LEVEL_TEXT = ("explicit-state search over the real Cooperator/CooperativeTask objects with canonical-state merging; every transition "
+              "is executed on the implementation and compared with a per-task reference; the thorough tier runs to closure "
+              "(no unexplored reachable state for <= 3 tasks under the stated caps), the quick tier to depth 6")
+LEVEL_NOTE = ("canonicalisation reads private attributes (_tasks order, _metarator position, _pauseCount) and assumes states that agree "
+              "on them and on the harness-visible task states have equal futures; Deferred is trusted")
 TECHNIQUE = "explicit-state BFS over real objects, lock-step task-state reference, most-general (nondeterministic) iterators"
 RULE = ("BFS over histories of {scheduler tick, pause(i), resume(i), stop(i), whenDone(i), fire the Deferred task i waits on "
         "ok / failed, Cooperator.stop(), add a task by cooperate()/coiterate()} on a real Cooperator(scheduler=manual, "
@@ -17,7 +22,9 @@ RULE = ("BFS over histories of {scheduler tick, pause(i), resume(i), stop(i), wh
         "objects are compared with a per-task reference (runnable / user-paused n times / waiting / finished(reason)). "
         "non-trivial = distinct canonical states in which some task is paused, waiting, finished or the cooperator is stopped")
 BOUNDS = {"quick": "depth 6; k in {1,2}; 1..3 initial tasks (each cooperate or coiterate), <= 3 tasks in total",
-          "thorough": "depth 7 for k in {1,2} (6 behaviours per next()); depth 6 for k=3 (4 behaviours per next())"}
+          "thorough": "to closure: every reachable canonical state of a Cooperator with <= 3 tasks (cooperate or coiterate, added at "
+                      "any time), <= 2 nested harness pauses and <= 2 whenDone() per task, for k in {1,2,3} (9 / 6 / 4 behaviours "
+                      "per next()); the run reports exhaustive=False if any shard stops at the depth cap instead"}
 ASSUMPTIONS = [
     "operations are issued between scheduler ticks / Deferred firings, plus (k=1 only) pause()/stop() of its own task from "
     "inside an iterator's next(); no operations from inside whenDone callbacks; resume() is only issued to undo a pause() "
@@ -34,13 +41,15 @@ ASSUMPTIONS = [
     "_pauseCount / _completionState class), order of Cooperator._tasks, remaining part of Cooperator._metarator, pending "
     "scheduler calls, starvation counters; private attributes are read for canonicalisation only",
 ]
-MIN = {"quick": {"states": 150000, "nontrivial": 145000, "outcomes": 7}}
+MIN = {"quick": {"states": 150000, "nontrivial": 145000, "outcomes": 7},
+       "thorough": {"states": 700000, "nontrivial": 700000, "outcomes": 7, "shards_searched_to_closure": 42}}
 
 BEH6 = ("V", "D", "S", "R", "Ds", "Df")
 BEH9 = BEH6 + ("P", "X", "XS")     # the iterator pauses / stops its own task from inside next(), then yields / finishes
 BEH4 = ("V", "D", "S", "R")
+CLOSURE = 60      # deeper than the deepest reachable canonical state (17 measured): the search runs until no new state appears
 TIERS = {"quick": [(1, 6, BEH9), (2, 6, BEH6)],
-         "thorough": [(1, 7, BEH9), (2, 7, BEH6), (3, 6, BEH4)]}
+         "thorough": [(1, CLOSURE, BEH9), (2, CLOSURE, BEH6), (3, CLOSURE, BEH4)]}
 MAXTASKS = 3
 REASON_EXC = {"done": "TaskDone", "failed": "TaskFailed", "stopped": "TaskStopped", "schedstopped": "SchedulerStopped"}
 
@@ -483,6 +492,12 @@ def run_shard(shard, tier, seed):
               lambda st, hist: list(st.bad), depth, on_state=on_state,
               max_violations=10 ** 6)   # known findings must not use up the violation slots of other signatures
     stats.add_bfs(res, {"shard": shard, "tier": tier})
+    stats.counters["deepest_state_max"] = res.max_depth
+    if res.max_depth < depth:
+        stats.count("shards_searched_to_closure")
+    elif depth == CLOSURE:
+        stats.exhaustive = False
+        stats.notes.append("C11: shard %r hit the depth cap %d before closure" % (shard, depth))
     return stats
 
 
